@@ -137,6 +137,7 @@ type FnCtx struct {
 	oblNames    map[string]int
 	finalVals   map[string]envVar
 	calledNames map[string]bool // names used in called("...") expressions of this function's contract
+	staleGuards map[string]string // guard clauses that could not be elaborated at some site (clause -> message)
 	defineDepth int
 	defInfos    map[string]*defineInfo
 	curCall     *ssa.CallCommon // the call being modelled by a library model
@@ -291,6 +292,7 @@ func (fc *FnCtx) resetPass() {
 	fc.calleesUsed = map[string]bool{}
 	fc.cellNames = map[string][]*ssa.Alloc{}
 	fc.guardCount = map[string]int{}
+	fc.staleGuards = nil
 	fc.oblNames = map[string]int{}
 	fc.defInfos = nil
 	fc.eng.resetPure(fc)
@@ -776,4 +778,24 @@ func (e *Engine) pos(p token.Pos) string {
 	}
 	ps := e.fset.Position(p)
 	return fmt.Sprintf("%s:%d", strings.TrimPrefix(ps.Filename, "/repo/"), ps.Line)
+}
+
+// guardGoal elaborates a guard condition at a site; a clause that cannot be elaborated there (e.g. it
+// names a local that is not in scope at this site) is recorded as stale and skipped, so that the
+// function's other obligations are still checked.
+func (fc *FnCtx) guardGoal(env *Env, c *Clause) (goal *Term) {
+	defer func() {
+		if r := recover(); r != nil {
+			u, ok := r.(unsupportedErr)
+			if !ok || !strings.HasPrefix(u.msg, "contract-stale") {
+				panic(r)
+			}
+			if fc.staleGuards == nil {
+				fc.staleGuards = map[string]string{}
+			}
+			fc.staleGuards[c.Text] = u.msg
+			goal = nil
+		}
+	}()
+	return fc.transBool(env, c)
 }
